@@ -66,6 +66,14 @@ PROPS = {
         "assumptions": ["scalars are exact real numbers"],
         "coq_timeout": 1500,
     },
+    "C05": {
+        "claimed": True,
+        "technique": "Coq proof (ring/field/nsatz, cos_acos/sin_acos over R) over programs translated from the compiled code incl. the branchy rotation_from_to_3d",
+        "level_text": "all quaternion operators/conversions (35 entry points) are proved equal to the Hamilton-algebra definitions for ALL components; the algebra laws (associativity, neutral identity, multiplicative norm, conjugate reverses products, two-sided inverse of every non-zero quaternion) are proved; q*Vec3 is q(v,0)q^-, Vec4 keeps w, a unit quaternion acts exactly like the matrix converted from it, application composes; rotation_from_to_3d returns a unit quaternion mapping u onto (|u|/|v|)v for EVERY pair outside the documented epsilon band and onto -u for EVERY exactly opposite pair (both axis sub-branches); the matrix forms equal the matrix of that quaternion in every branch; into_angle_axis of a unit quaternion returns a unit axis and an angle with cos(angle/2)=w, axis*sin(angle/2)=xyz. The 4 quaternion unit tests check |q|=1 on single inputs.",
+        "level_note": "Trusted: Coq kernel; stdlib real-number axioms as printed; symx translator (self-checked each run); Rust parametricity. Exact real arithmetic; the open band 0 < |u||v|+u.v < |u||v|eps of rotation_from_to_3d and sqrt(1-w^2) < eps of into_angle_axis are excluded (documented degenerate bands).",
+        "design_ref": "DESIGN.md section 7, C05",
+        "assumptions": ["scalars are exact real numbers", "T::epsilon() is an arbitrary real eps > 0"],
+    },
 }
 
 for _k in PROPS: PROPS[_k].setdefault("selfcheck", {"quick": 200, "thorough": 5000})
